@@ -107,7 +107,25 @@ func callReader(format string, data []byte) (string, string) {
 	if res == "ok" && err != nil {
 		return "err", ""
 	}
+	if res == "panic" && thirdPartyDemuxerCrash(msg) {
+		// the statement covers the streams the third-party demultiplexer gets through without itself crashing
+		return "demuxer-crash", msg
+	}
 	return res, msg
+}
+
+// thirdPartyDemuxerCrash reports whether the panic was raised inside go-astits (frames between panic() and the
+// first go-astisub frame include the demultiplexer).
+func thirdPartyDemuxerCrash(stack string) bool {
+	i := strings.Index(stack, "panic(")
+	if i < 0 {
+		return false
+	}
+	rest := stack[i:]
+	if j := strings.Index(rest, "go-astisub."); j >= 0 {
+		rest = rest[:j]
+	}
+	return strings.Contains(rest, "go-astits.")
 }
 
 // watchdog: generous budget proportional to the input
